@@ -22,7 +22,7 @@ Definition c20_events (s s' : state) (o : op) : N :=
        end
      end) +
     (if c20_is_mk (key fn) then 0 else 64)
-  | OSave _ | OModify _ _ =>
+  | OSave _ _ | OModify _ _ =>
     if Nat.ltb (length (c_map c')) (length (c_map c)) then
       16 + (if list_eq_dec Nat.eq_dec (removelast (c_table c)) (c_table c') then 0 else 32)
     else 0
